@@ -117,6 +117,11 @@ func (defaultSharedInitializeCaller) Call(s *slip.Scope, args slip.List, depth i
 		}
 	}
 	for k, sd := range obj.Type.initFormMap() {
+		if owner := obj.Type.classSlotOwners()[k]; owner != nil && owner.slotDefMap()[k].classInit {
+			// The initform of a class allocated slot is used once, for the
+			// first instance, and not for each instance.
+			continue
+		}
 		if _, has := nameMap[k]; !has {
 			// An initform of nil evaluates to nil.
 			var v slip.Object
